@@ -46,10 +46,6 @@ def build_registry(mods):
     reg.loops_by_key = {}
     for m in mods:
         for c in m.contracts:
-            if c.qname in reg.contracts:
-                # several properties may share a function: merge property ids, keep the first contract
-                reg.contracts[c.qname].props = tuple(sorted(set(reg.contracts[c.qname].props) | set(c.props)))
-                continue
             reg.add_contract(c)
         for f, mm in m.models.items():
             reg.models[f] = mm
@@ -101,6 +97,7 @@ def _task_function(qname):
     def body():
         try:
             c = _REG.contracts[qname]
+            _REG.current_module = getattr(c, 'module', None)
             rep = verify.verify_function(_REG, c)
             result['rep'] = _summarize(c, rep)
         except BaseException:
@@ -128,7 +125,7 @@ def _summarize(c, rep):
             v = smt.discharge(pc, goal, want_smt2=(len(samples) < 1), all_backends=all_backends)
             solver_time += v.time
             by_backend[v.backend] = by_backend.get(v.backend, 0) + 1
-            if v.smt2 and len(samples) < 1 and v.status == 'unsat' and v.backend != 'trivial':
+            if v.smt2 and len(samples) < 1 and v.status == 'unsat' and v.backend != 'path-evaluation':
                 samples.append({'obligation': name, 'verdict': 'unsat', 'backend': v.backend,
                                 'smt2': v.smt2[:3000]})
             if v.status == 'sat':
@@ -164,7 +161,7 @@ def _summarize(c, rep):
         clauses[name] = {'status': status, 'instances': len(insts), 'detail': detail,
                          'kind': (insts[0][2] or {}).get('kind')}
     return {
-        'qname': c.qname, 'props': list(c.props), 'paths': rep.paths, 'aborted_paths': rep.aborted_paths,
+        'qname': getattr(c, 'key', c.qname), 'props': list(c.props), 'paths': rep.paths, 'aborted_paths': rep.aborted_paths,
         'clauses': clauses, 'unsupported': rep.unsupported, 'errors': rep.errors,
         'inlined': sorted(rep.inlined), 'used_contracts': sorted(rep.used_contracts),
         'used_models': sorted(rep.used_models), 'native_calls': sorted(rep.native_calls),
@@ -172,6 +169,7 @@ def _summarize(c, rep):
         'source': rep.source, 'sha256': rep.sha, 'wall': rep.wall, 'solver_time': solver_time,
         'by_backend': by_backend, 'vcs': vcs, 'samples': samples,
         'unknown_feasibility': rep.unknown_feasibility, 'feasibility_queries': rep.feasibility_queries,
+        'uncovered': rep.uncovered,
         'deps_sha': rep.deps_sha,
     }
 
@@ -293,6 +291,7 @@ def main(argv=None):
         print('CHECKER-ERROR: no contract module for %s' % prop)
         return 3
     tasks = []
+    seen_funcs = {}
     for q, c in _REG.contracts.items():
         if prop in c.props and not c.trusted and c.func is not None:
             if args.only and args.only not in q:
@@ -376,6 +375,9 @@ def report(prop, mine, results, missing, seed, wall, args):
                 crashes.append((rep['qname'], '\n'.join(rep['errors'][:3])))
             if rep['paths'] == 0 and not rep['unsupported'] and not rep['errors']:
                 crashes.append((rep['qname'], 'vacuous: no feasible path (contradictory precondition?)'))
+            if rep.get('uncovered'):
+                crashes.append((rep['qname'], 'vacuous: return/raise never reached on a feasible path (cut off by an '
+                                              'assumption?): ' + '; '.join(rep['uncovered'])))
             if not rep['clauses'] and not rep['unsupported'] and not rep['errors']:
                 crashes.append((rep['qname'], 'vacuous: zero obligations generated'))
             for name, cl in rep['clauses'].items():
@@ -470,6 +472,42 @@ def report(prop, mine, results, missing, seed, wall, args):
     assumptions.extend('assert isinstance(...) taken as assumption at %s' % a for a in sorted(assumed_asserts))
     assumptions.extend('executed natively on concrete arguments: %s' % a for a in sorted(native_calls))
     assumptions.append('integers are mathematical; no threads/signals/BaseException; termination only where a variant is given')
+    extra = {}
+    if _TIER == 'thorough' and not args.only:
+        # validation of the verifier itself (DESIGN 2.4): a failure here is a checker error
+        try:
+            from . import crosscheck, modelcheck
+            cc = crosscheck.run(prop, 25, seed)
+            extra['interpreter_crosscheck_against_cpython'] = {
+                'runs_compared': cc['compared'], 'failures': len(cc['failures']),
+                'functions_without_concrete_inputs': sorted(cc['skipped'])}
+            cases, mfail = modelcheck.run(3)
+            extra['string_model_crosscheck_against_cpython'] = {'cases': cases, 'failures': len(mfail)}
+            suites = [x for m in mine for x in getattr(m, 'conformance_suites', [])]
+            if suites:
+                import subprocess
+                env = dict(os.environ, PYTHONPATH=os.pathsep.join([VERIF, REPO_SRC, os.path.join(REPO, 'test')]))
+                p = subprocess.run(['/venv/bin/python', '-W', 'ignore', '-m', 'pyvc.conformance', prop] + suites,
+                                   cwd=VERIF, env=env, capture_output=True, text=True, timeout=1800)
+                try:
+                    conf = json.loads(p.stdout[p.stdout.index('{'):])
+                except Exception:
+                    conf = {'error': (p.stdout + p.stderr)[-800:]}
+                extra['runtime_conformance_under_repository_unit_tests'] = conf
+                if conf.get('precondition_failures') or conf.get('postcondition_failures') or 'error' in conf:
+                    print('CHECKER-ERROR: run-time conformance: %s' % json.dumps(
+                        {k: conf.get(k) for k in ('precondition_failures', 'postcondition_failures', 'error')})[:1500])
+                    if exit_code == 0:
+                        exit_code = 3
+            if cc['failures'] or mfail:
+                for f in (cc['failures'] + mfail)[:10]:
+                    print('CHECKER-ERROR: cross-check against CPython failed: %r' % (f,))
+                if exit_code == 0:
+                    exit_code = 3
+        except Exception:
+            print('CHECKER-ERROR: cross-check crashed\n' + traceback.format_exc())
+            if exit_code == 0:
+                exit_code = 3
     evidence = {
         'property_id': prop, 'tier': _TIER, 'seed': seed, 'level': 'proof',
         'coverage': {
@@ -478,6 +516,12 @@ def report(prop, mine, results, missing, seed, wall, args):
             'trusted_base': trusted,
             'functions_under_contract': functions,
             'smt_queries': vcs, 'by_backend': by_backend, 'solver_time_s': round(solver_time, 3),
+            'by_backend_legend': {
+                'path-evaluation': 'the clause evaluated to True on a path whose every symbolic decision was a case '
+                                   'split or an entailment decided by z3 during path exploration (typical for '
+                                   'full-domain enum proofs)',
+                'enumeration': 'finite obligation on real module constants / syntactic scan of the current source',
+            },
             'inlined_transparent_functions': sorted(inlined),
             'refuted': [{'obligation': r['obligation'], 'replay': r['replay'], 'reproduced_natively': r['replayed']}
                         for r in refuted],
@@ -485,6 +529,7 @@ def report(prop, mine, results, missing, seed, wall, args):
             'undecided': [list(u) for u in undecided],
             'samples': samples[:5] or [{'note': 'no SMT sample (all obligations by enumeration/scan)'}],
             'bounded_standins': bounded,
+            **extra,
         },
         'assumptions': assumptions,
         'wall_s': round(wall, 3),
